@@ -413,6 +413,32 @@ C20Why(cd, env, ev) ==
 \* a seeding connection only has to work
 SeedWhy(ev) == LET u == Universal(ev) IN IF u # "ok" THEN u ELSE IF ev.hs_ok /\ ev.s_ok /\ ev.after.present THEN "ok" ELSE "seed-failed"
 
+\* ---- C11 on every connection of a history: after a successful handshake both ConnectionStates tell the same story
+AgreeWhy(ev) ==
+  IF ~(ev.hs_ok /\ ev.s_ok) THEN "ok"
+  ELSE IF ev.c_vers # ev.s_vers THEN "cs-disagree-version"
+  ELSE IF ev.c_suite # ev.s_suite THEN "cs-disagree-suite"
+  ELSE IF ev.c_alpn # ev.s_alpn THEN "cs-disagree-alpn"
+  ELSE IF ev.c_resumed # ev.s_resumed THEN "cs-disagree-didresume"
+  ELSE IF ev.c_sni # ev.s_sni THEN "cs-disagree-servername"
+  ELSE "ok"
+\* ---- C18 across the connections of a history: ha, hb = first hellos of two different connections
+ShareData(h) == IF HasExtT(h, 51) /\ IsVec16(ExtBody(h, 51)) /\ SharesOK(ExtBody(h, 51), 3)
+                THEN {x.data : x \in {y \in Range(ParseShares(ExtBody(h, 51), 3)) : y.n > 1}} ELSE {}
+FreshWhy(ha, hb) ==
+  IF ~ha.ok \/ ~hb.ok THEN "ok"
+  ELSE IF ha.sid # <<>> /\ ha.sid = hb.sid THEN "session-id-repeats"
+  ELSE IF ha.random = hb.random THEN "client-random-repeats"
+  ELSE IF ShareData(ha) \cap ShareData(hb) # {} THEN "key-share-repeats"
+  ELSE "ok"
+\* a connection that is built / given its session next to others: its calls work, it completes, both sides agree
+ParWhy(ev) ==
+  LET u == Universal(ev)  r == ObsRes(ev)  a == AgreeWhy(ev) IN
+  IF u # "ok" THEN u
+  ELSE IF \E i \in DOMAIN r : r[i] # "ok" THEN "side-by-side-call-failed"
+  ELSE IF ~(ev.hs_ok /\ ev.s_ok) THEN "side-by-side-handshake-failed"
+  ELSE a
+
 \* ---- C19: cd = this connection, pcd/pev = the previous connection of the history (k > 1), cacheM = name -> what
 \* the previous connections left in the ClientSessionCache (bound to the recorded `after`), ev = the observation
 HashLen(suite) == IF suite \in {4866, 49196, 49200, 157, 159, 49188, 49192} THEN 48 ELSE 32     \* SHA-384 suites
@@ -446,5 +472,5 @@ C19Why(cd, k, pcd, pev, cacheM, ev) ==
   \* ctl_ok: the same connection works with an empty cache, i.e. parrot, configuration and server are compatible
   ELSE IF ev.ctl_ok /\ ~(ev.hs_ok /\ ev.s_ok) THEN (IF ev.hs_ok THEN "server-aborted" ELSE "handshake-broken-by-cache")
   ELSE IF k > 1 /\ ev.ctl_ok /\ SameConn(cd, pcd) /\ pev.hs_ok /\ pev.s_ok /\ NeedExt(cd) /\ ~(ev.hs_ok /\ ev.c_resumed /\ ev.s_resumed) THEN "not-resumed"
-  ELSE "ok"
+  ELSE AgreeWhy(ev)
 =============================================================================
